@@ -253,6 +253,22 @@ func init() {
 	})
 }
 
+// UMultiCause: multi-cause node that also has a pkg/errors-style Cause()
+// (its first branch), as a batch error written before Go 1.20 and extended later.
+type UMultiCause struct {
+	Msg  string
+	Errs []error
+}
+
+func (e *UMultiCause) Error() string   { return e.Msg }
+func (e *UMultiCause) Unwrap() []error { return e.Errs }
+func (e *UMultiCause) Cause() error {
+	if len(e.Errs) == 0 {
+		return nil
+	}
+	return e.Errs[0]
+}
+
 // UMultiIs: multi-cause node with its own value-comparing Is method.
 type UMultiIs struct {
 	Msg, Tag string
